@@ -1,15 +1,22 @@
 #!/bin/bash
-# MANIFEST.setup_cmd: build the Lean project (library, property theorems, driver) offline.
-set -e
+# MANIFEST.setup_cmd: regenerate tables from /repo, build the Lean project (library, property
+# theorems, driver) offline.  A Lean target that no longer builds is NOT a setup failure: every
+# check rebuilds what it needs and reports a broken obligation for its own property only.
 here="$(cd "$(dirname "$0")" && pwd)"
-cd "$here"
+cd "$here" || exit 2
 export PYTHONPATH="$here" PYTHONDONTWRITEBYTECODE=1
-/venv/bin/python - <<'PY'
-from pathlib import Path
+/venv/bin/python - <<'PY' || { echo "setup: table generation failed"; exit 2; }
 from harness import core, gen_main
-core.regenerate_tables()
+info = core.regenerate_tables()
+for e in info.get("errors", []):
+    print("setup: NOTE translator error:", e)
 gen_main.main(core.LEAN)
 PY
-cd lean
-lake build Clem clemdrv
-echo "setup ok"
+cd lean || exit 2
+command -v lake >/dev/null || { echo "setup: lake not on PATH"; exit 2; }
+if lake build Clem clemdrv; then
+  echo "setup ok"
+else
+  echo "setup: some Lean targets did not build; the checks of the affected properties will report it"
+fi
+exit 0
